@@ -87,6 +87,22 @@ def gen_rounds(seed, tier, run):
             out.append(f"unique {arr(sh, [e % 2 for e in es])} z{ax}")
             out.append(f"unique {arr(sh, list(range(prod(sh))))} z{ax}")
             out.append(f"unique {arr(sh, [(i // 2) % 3 for i in range(prod(sh))])} z{ax}")
+    # element types whose ORDER is not that of a machine number: pairs ordered lexicographically (label x is the pair
+    # (x div 4, x mod 4): many pairs share their first member — seeded change C10n compared first members only),
+    # strings, lists
+    for ty in ("pairk", "pairk", "list", "pair", "f32", "u64"):
+        for n_ in (2, 3, 5, 8, 13, 21, 40, 70):
+            l = [rng.randint(0, 15) for _ in range(n_)]
+            for k in KINDS:
+                out.append(f"sort@{ty} {arr([n_], l)} n {k}")
+            out.append(f"argsort@{ty} {arr([n_], l)} n {rng.choice(KINDS)}")
+            if ty != "str":
+                out.append(f"unique@{ty} {arr([n_], l)} n")
+        for sh in ([3, 4], [2, 3, 3]):
+            es = [rng.randint(0, 11) for _ in range(prod(sh))]
+            for ax in range(len(sh)):
+                out.append(f"sort@{ty} {arr(sh, es)} z{ax} {rng.choice(KINDS)}")
+                out.append(f"argsort@{ty} {arr(sh, es)} z{ax} {rng.choice(KINDS)}")
     for L in (40, 64, 100):
         sh = [3, L]
         es = [rng.randint(0, 50) for _ in range(3 * L)]
